@@ -296,7 +296,10 @@ def judge(o, c, run, follow, fresh, where, recheck=None):
 # ---------------------------------------------------------------------------
 SESSION_MODULES = {
     "c07s": "local p = {}\nfunction p.heavy(frame) local s = 0 for i = 1, 3000000 do s = s + (i % 7) end return 'sum=' .. s end\n"
-            "function p.spin(frame) while true do end end\nreturn p\n",
+            "function p.spin(frame) while true do end end\n"
+            "function p.nmspin(frame) pcall(frame.preprocess, frame, '{{#invoke:c07nomodule|f}}') while true do end end\n"
+            "function p.nfspin(frame) pcall(frame.preprocess, frame, '{{#invoke:c07s|nosuchfn}}') while true do end end\n"
+            "function p.nbspin(frame) pcall(frame.preprocess, frame, '{{#invoke:c07bad|f}}') while true do end end\nreturn p\n",
     "c07bad": "local p = {}\nfunction p.f(frame) return 'x' end\nreturn p p\n",  # chunk does not compile
 }
 ERR_ELEM = re.compile(r'^<strong class="error">Lua execution error in Module:[\w:]+ function \w+</strong>$')
@@ -318,7 +321,8 @@ def session_child(sess, d, conn):
     ctx.db_conn.commit()
     ctx.start_page("Tt")
     call = {"heavy": "{{#invoke:c07s|heavy}}", "spin": "{{#invoke:c07s|spin}}", "nofn": "{{#invoke:c07s|nosuchfn}}",
-            "nomod": "{{#invoke:c07nomodule|f}}", "bad": "{{#invoke:c07bad|f}}"}
+            "nomod": "{{#invoke:c07nomodule|f}}", "bad": "{{#invoke:c07bad|f}}",
+            "nmspin": "{{#invoke:c07s|nmspin}}", "nfspin": "{{#invoke:c07s|nfspin}}", "nbspin": "{{#invoke:c07s|nbspin}}"}
     for i, st in enumerate(sess):
         if st["k"] == "pause":
             time.sleep(LIMIT + 1.3)
@@ -382,7 +386,8 @@ def session_outcome(st, rec):
     if isinstance(out, str) and out.startswith("EXC "):
         return "exception"
     if isinstance(out, str) and TMO_ELEM.match(out):
-        return "timeout-in-bound" if (st["k"] == "spin" and elapsed <= LIMIT + BOUND) else ("timeout-late" if st["k"] == "spin" else "timeout")
+        spins = ("spin", "nmspin", "nfspin", "nbspin")
+        return "timeout-in-bound" if (st["k"] in spins and elapsed <= LIMIT + BOUND) else ("timeout-late" if st["k"] in spins else "timeout")
     if isinstance(out, str) and ERR_ELEM.match(out):
         return "error"
     return "value"
